@@ -160,6 +160,29 @@ Proof.
   destruct (eval_sq_shape _ _ _ E Hs) as [Hc Hw]. repeat split; auto. apply nodupb_sound. exact Hnd.
 Qed.
 
+(** * transforming a frame further: where(e) on any model DataFrame (also one returned by session.sql or
+    session.table) filters exactly the rows the frame collects to *)
+Definition where_df (nm : string) (d : df) (e : expr) : df :=
+  mkDf (d_chain d ++ [(nm, d_leaf d)])
+       (QSel (FName nm) [e] (sel_of_static (static_cols (d_leaf d))) false).
+
+Theorem where_sound nm d e base0 f fr :
+  fresh_for nm d = true -> nodupb (static_cols (d_leaf d)) = true ->
+  eval_df f d base0 = Some fr ->
+  eval_df (S f) (where_df nm d e) base0 = sel_frame [e] None false fr.
+Proof.
+  intros Hf Hnd E. destruct (fresh_for_inv nm d Hf) as [H1 [H2 H3]].
+  unfold eval_df at 1, where_df. cbn [d_leaf d_chain eval_sq eval_from].
+  rewrite (cte_env_snoc_new (d_chain d) nm (d_leaf d) base0 H1 H2 f H3).
+  fold (eval_df f d base0). rewrite E.
+  unfold sel_of_static. destruct (has_star (static_cols (d_leaf d))) eqn:Hs; [reflexivity|].
+  unfold eval_df in E. destruct (eval_sq_shape _ _ _ E Hs) as [Hc Hw].
+  rewrite <- Hc. apply nodupb_sound in Hnd. rewrite <- Hc in Hnd.
+  unfold sel_frame. destruct (forallb (cols_in (cols fr)) [e]); [|reflexivity].
+  rewrite passthrough_cols_in. f_equal.
+  apply (eval_simple_block (mkBlock [e] (passthrough (cols fr)) false [] None) fr); auto.
+Qed.
+
 (** * the DataFrame returned by session.sql *)
 Definition sql_df (nm : string) (sp : query) : df :=
   mkDf (q_ctes sp ++ [(nm, q_main sp)])
@@ -256,6 +279,65 @@ Section MachineLevel.
   Qed.
 End MachineLevel.
 
+(** * the model of qualify preserves the meaning of a SELECT tree when the schema is non-empty and its
+    column information is right (the premise the stale-cache defect breaks); with an empty schema it does
+    not (early alias expansion, [C13_refuted_alias_expansion]) *)
+Definition info_right (info : colinfo) (e : env) : Prop :=
+  forall f cs fr, from_cols info f = Some cs -> eval_from e f = Some fr ->
+                  cols fr = cs /\ wf_frame fr /\ NoDup cs.
+
+Lemma sel_star_expand w d fr : wf_frame fr -> NoDup (cols fr) ->
+  sel_frame w (Some (passthrough (cols fr))) d fr = sel_frame w None d fr.
+Proof.
+  intros Hwf Hnd. unfold sel_frame. destruct (forallb (cols_in (cols fr)) w); [|reflexivity].
+  rewrite passthrough_cols_in. f_equal.
+  unfold eval_block. cbn [b_where b_sel b_distinct b_order b_limit].
+  rewrite out_cols_passthrough. f_equal.
+  set (rs := filter (all_hold (cols fr) w) (rows fr)).
+  assert (Hps : map (fun r => (proj (cols fr) (passthrough (cols fr)) r, r)) rs = map (fun r => (r, r)) rs).
+  { apply map_ext_in. intros r Hr. unfold rs in Hr. apply filter_In in Hr. destruct Hr as [Hr _].
+    rewrite proj_passthrough; auto. }
+  rewrite Hps. rewrite sort_on_nil_keys by reflexivity.
+  destruct d.
+  - rewrite map_fst_dedup_on. rewrite map_map. cbn [fst]. rewrite map_id. reflexivity.
+  - rewrite map_map. cbn [fst]. apply map_id.
+Qed.
+
+Lemma qualify_sound_both info e : info_right info e ->
+  (forall q q', qualify_sq info true q = Some q' -> eval_sq e q' = eval_sq e q) /\
+  (forall f f', qualify_from info true f = Some f' -> eval_from e f' = eval_from e f).
+Proof.
+  intro Hinfo. apply sq_from_ind.
+  - intros f IH w sel d q' H. cbn [qualify_sq] in H.
+    destruct (qualify_from info true f) as [f'|] eqn:Ef; [|discriminate].
+    destruct (refs_ok info true f (sel_refs w sel)); [|discriminate].
+    inversion H; subst q'; clear H. cbn [eval_sq]. rewrite (IH f' eq_refl).
+    destruct (eval_from e f) as [fr|] eqn:Efr; [|reflexivity].
+    destruct sel as [items|]; [reflexivity|].
+    destruct (is_join f); [reflexivity|].
+    destruct (from_cols info f) as [cs|] eqn:Ec; [|reflexivity].
+    destruct (Hinfo f cs fr Ec Efr) as [Hc [Hwf Hnd]]. subst cs.
+    apply sel_star_expand; assumption.
+  - intros f IH w ks ag q' H. cbn [qualify_sq] in H.
+    destruct (qualify_from info true f) as [f'|] eqn:Ef; [|discriminate].
+    destruct (refs_ok info true f (agg_refs w ks ag)); [|discriminate].
+    inversion H; subst q'. cbn [eval_sq]. rewrite (IH f' eq_refl). reflexivity.
+  - intros n f' H. inversion H. reflexivity.
+  - intros fr f' H. inversion H. reflexivity.
+  - intros q IH f' H. cbn [qualify_from] in H.
+    destruct (qualify_sq info true q) as [q'|] eqn:Eq; [|discriminate]. inversion H; subst f'.
+    cbn [eval_from]. apply IH. reflexivity.
+  - intros l IHl la r IHr ra on f' H. cbn [qualify_from] in H.
+    destruct (qualify_from info true l) as [l'|] eqn:El; [|discriminate].
+    destruct (qualify_from info true r) as [r'|] eqn:Er; [|discriminate].
+    destruct (refs_ok info true _ _); [|discriminate]. inversion H; subst f'.
+    cbn [eval_from]. rewrite (IHl l' eq_refl), (IHr r' eq_refl). reflexivity.
+Qed.
+
+Theorem qualify_sq_sound info e q q' : info_right info e ->
+  qualify_sq info true q = Some q' -> eval_sq e q' = eval_sq e q.
+Proof. intros Hi H. exact (proj1 (qualify_sound_both info e Hi) q q' H). Qed.
+
 (** * the proved part of C13 in one statement, for any configuration that passes [cfg_ok] *)
 Definition C13_proved (c : cfg) : Prop :=
   (* (1) the splice is a sound substitution, for every query tree, registry and base environment *)
@@ -284,6 +366,15 @@ Definition C13_proved (c : cfg) : Prop :=
         forallb (fun s => negb (registers c (lower name) s)) after = true ->
         lookup_table c tables (mrun c tables st0 (before ++ [SReg name h] ++ after)) name'
         = Some (stored c (mrun c tables st0 before) d))
+  (* (6) a frame (e.g. the result of session.sql) transformed further by where(e) filters its own rows *)
+  /\ (forall tables st h e d fr f,
+        heap_get (s_heap st) h = Some d ->
+        fresh_for (fresh (s_next st)) d = true -> nodupb (static_cols (d_leaf d)) = true ->
+        eval_df f d (base tables) = Some fr ->
+        exists d', snd (mstep c tables st (SWhere h e)) = ODf d'
+                   /\ eval_df (S f) d' (base tables) = sel_frame [e] None false fr)
+  (* (7) qualify (as modelled) with a non-empty schema whose column information is right preserves meaning *)
+  /\ (forall info e q q', info_right info e -> qualify_sq info true q = Some q' -> eval_sq e q' = eval_sq e q)
   (* (5) DataFrames already built keep their definition and meaning through every later history *)
   /\ (forall tables steps st h d,
         heap_get (s_heap st) h = Some d ->
@@ -292,11 +383,15 @@ Definition C13_proved (c : cfg) : Prop :=
 
 Theorem C13_package : forall c, cfg_ok c = true -> C13_proved c.
 Proof.
-  intros c Hc. unfold C13_proved. split; [|split; [|split; [|split]]].
+  intros c Hc. unfold C13_proved. split; [|split; [|split; [|split; [|split; [|split]]]]].
   - intros q views base0 r NC. apply splice_sound; exact NC.
   - intros tables st q q1 d Hq Hd Hok r. apply (session_sql_sound c tables st q q1 d); assumption.
   - intros tables st name name' h d Hh Hn Hret Hf Hnd.
     exact (register_then_table_sees_df c tables st name name' h d Hc Hh Hn Hret Hf Hnd).
   - intros tables before after st0 name name' h d Hh Hn Hret Hafter. apply rereg_last_wins; assumption.
+  - intros tables st h e d fr f Hh Hf Hnd E. cbn [mstep]. rewrite Hh. cbn [snd].
+    eexists. split; [reflexivity|]. apply (where_sound _ d e (base tables) f fr Hf Hnd E).
+  - intros info e q q' Hi H. exact (qualify_sq_sound info e q q' Hi H).
   - intros tables steps st h d Hh. apply (earlier_frames_unchanged c tables steps st h d Hh).
 Qed.
+
